@@ -5,7 +5,8 @@ from common import *
 from runner import Script, Cfg
 
 ID = "C11"
-THEOREMS = ["C11_rpc_stream", "C11_http_stream", "C11_refuted_short_first_segment", "Env.the_env_ok"]
+THEOREMS = ["C11_rpc_stream", "C11_http_stream", "C11_http_stream_segmentation", "C11_refuted_short_first_segment",
+            "C11http.C11_http_parse_app", "C11http.C11_http_segments", "C11http.C11_http_per_segment", "Env.the_env_ok"]
 MONITORS = []
 RULE = ("request streams (HTTP requests of all shapes, ONC-RPC/TCP calls with credentials, with trailing bytes) are sent on a "
         "fresh validated flow under every 1-cut and 2-cut segmentation (exhaustive for streams up to 80 bytes, cuts on a "
